@@ -2,6 +2,7 @@ package direct
 
 import (
 	"context"
+	"net"
 
 	"github.com/database64128/shadowsocks-go/conn"
 	"github.com/database64128/shadowsocks-go/zerocopy"
@@ -9,13 +10,13 @@ import (
 
 // C05Socks5Session runs the real session constructor of a SOCKS5 UDP client
 // for a given UDP bound address (the address a SOCKS5 server would return for
-// UDP ASSOCIATE) without the TCP control connection.  ok is false when c is not
-// a plain SOCKS5 UDP client.
-func C05Socks5Session(ctx context.Context, c zerocopy.UDPClient, bound conn.Addr) (info zerocopy.UDPClientSessionInfo, s zerocopy.UDPClientSession, ok bool, err error) {
+// UDP ASSOCIATE) on an already established control connection tc, skipping
+// only the TCP handshake.  ok is false when c is not a plain SOCKS5 UDP client.
+func C05Socks5Session(ctx context.Context, c zerocopy.UDPClient, tc *net.TCPConn, bound conn.Addr) (info zerocopy.UDPClientSessionInfo, s zerocopy.UDPClientSession, ok bool, err error) {
 	sc, ok := c.(*Socks5UDPClient)
 	if !ok {
 		return info, s, false, nil
 	}
-	s, err = sc.newSession(ctx, nil, bound)
+	s, err = sc.newSession(ctx, tc, bound)
 	return sc.info, s, true, err
 }
